@@ -61,6 +61,10 @@ func (verifStubErr) Error() string { return "stub: invalid ML-DSA signature" }
 //   - DecodeSecretKey / DecodePublicKey: record set and bytes; wrong lengths are refused as in
 //     the real code; the result is a key bound to the receiver (coefficients not unpacked);
 //   - SecretKey.Sign / PublicKey.Verify: record the key's set, message, signature, context.
+// VerifDispatchQuiet: Sign / Verify stand-ins stop recording (for the write-set monitor of
+// C18, under which the harness's own log would count as shared state).
+var VerifDispatchQuiet = false
+
 func VerifInstallDispatchLog(log *[]VerifDispatchRecord) {
 	verifrt.Summarize("mldsa.params).KeyGenFromSeed", func(pp *params, seed [SecretKeySeedSize]byte) (*PublicKey, *SecretKey) {
 		s := seed
@@ -88,12 +92,21 @@ func VerifInstallDispatchLog(log *[]VerifDispatchRecord) {
 		return &PublicKey{par: pp}, nil
 	})
 	verifrt.Summarize("mldsa.SecretKey).Sign", func(sk *SecretKey, M []byte, ctx []byte) ([]byte, error) {
-		*log = append(*log, VerifDispatchRecord{Call: "Sign:" + verifParamsName(sk.par), Arg: M, Arg3: ctx})
+		if !VerifDispatchQuiet {
+			*log = append(*log, VerifDispatchRecord{Call: "Sign:" + verifParamsName(sk.par), Arg: M, Arg3: ctx})
+		}
+		return VerifStubSignature, nil
+	})
+	// the derandomised variant (rnd = 0^32): a Tink signer must never end up here (C20)
+	verifrt.Summarize("mldsa.SecretKey).SignDeterministic", func(sk *SecretKey, M []byte, ctx []byte) ([]byte, error) {
+		*log = append(*log, VerifDispatchRecord{Call: "SignDeterministic:" + verifParamsName(sk.par), Arg: M, Arg3: ctx})
 		return VerifStubSignature, nil
 	})
 	verifrt.Summarize("mldsa.PublicKey).Verify", func(pk *PublicKey, M []byte, sigma []byte, ctx []byte) error {
 		rec := VerifDispatchRecord{Call: "Verify:" + verifParamsName(pk.par), Arg: M, Arg2: sigma, Arg3: ctx}
-		*log = append(*log, rec)
+		if !VerifDispatchQuiet {
+			*log = append(*log, rec)
+		}
 		ok := false
 		if VerifVerifyResult != nil {
 			ok = VerifVerifyResult(rec)
